@@ -122,6 +122,9 @@ pub trait LangInterpreter {
         }
         if incomplete {
             Err(Error::Incomplete)
+        } else if b.is_empty() {
+            // an empty group is not a number
+            Err(Error::NaN)
         } else {
             Ok(b)
         }
